@@ -130,7 +130,8 @@ Record state := mkState {
   st_span : list N;                   (* SpanHostsFilter._hostnames of the running process (volatile) *)
   st_items : list item; st_log : list logent;
   st_colog : list url;                (* ghost: URLs checked out, newest first *)
-  st_mode : mode }.
+  st_mode : mode;
+  st_batch : nat }.                   (* start-up: how many of the start URLs the committed input batches cover *)
 
 Inductive label :=
 | LCheckout            (* producer: URLItemSource.get_item *)
@@ -138,7 +139,8 @@ Inductive label :=
 | LAct (n : nat)       (* the n-th in-flight item performs its next action *)
 | LCrash               (* process killed: all volatile state is lost *)
 | LRelease             (* start-up: URLTable.release() *)
-| LAddStarts.          (* start-up: add_many(start URLs) *)
+| LAddStarts           (* start-up: add_many(start URLs) completed, hostnames table read *)
+| LAddBatch (n : nat). (* start-up: InputURLTask commits the input in batches (of 1000): add_many of the next n start URLs *)
 
 Definition start_info (u : url) : rinfo := mkInfo u 0 None u u.
 
@@ -272,12 +274,12 @@ Section Engine.
             Some (mkState (upd (r_url r) (set_status InProgress) (st_tbl s)) (st_hosts s) (st_span s)
                           (st_items s ++ [mkItem (r_info r) (r_tries r) false
                                                  (plan site (in_scope (st_span s)) maxredir (r_info r) (r_tries r))])
-                          (st_log s) (r_url r :: st_colog s) Running)
+                          (st_log s) (r_url r :: st_colog s) Running (st_batch s))
         end
     | LStart, Running =>
         if (n_started (st_items s) <? conc)%nat then
           match start_first (st_items s) with
-          | Some its => Some (mkState (st_tbl s) (st_hosts s) (st_span s) its (st_log s) (st_colog s) Running)
+          | Some its => Some (mkState (st_tbl s) (st_hosts s) (st_span s) its (st_log s) (st_colog s) Running (st_batch s))
           | None => None
           end
         else None
@@ -286,19 +288,26 @@ Section Engine.
         | Some (it, a, its) =>
             let u := ri_url (it_info it) in
             Some (mkState (apply_tbl u a (st_tbl s)) (apply_hosts a (st_tbl s) (st_hosts s)) (st_span s)
-                          its (apply_log u a (st_log s)) (st_colog s) Running)
+                          its (apply_log u a (st_log s)) (st_colog s) Running (st_batch s))
         | None => None
         end
-    | LCrash, _ => Some (mkState (st_tbl s) (st_hosts s) [] [] (st_log s) (st_colog s) Down)
-    | LRelease, Down => Some (mkState (release (st_tbl s)) (st_hosts s) [] [] (st_log s) (st_colog s) Starting)
+    | LCrash, _ => Some (mkState (st_tbl s) (st_hosts s) [] [] (st_log s) (st_colog s) Down 0)
+    | LRelease, Down => Some (mkState (release (st_tbl s)) (st_hosts s) [] [] (st_log s) (st_colog s) Starting 0)
     | LAddStarts, Starting =>
         (* InputURLTask.add_many, then URLFiltersPostURLImportSetupTask reads the hostnames table *)
         let hs := hosts_after (map start_info starts) (st_tbl s) (st_hosts s) in
-        Some (mkState (add_many (map start_info starts) (st_tbl s)) hs hs [] (st_log s) (st_colog s) Running)
+        Some (mkState (add_many (map start_info starts) (st_tbl s)) hs hs [] (st_log s) (st_colog s) Running 0)
+    | LAddBatch n, Starting =>
+        (* one committed batch of the input; a kill may fall between two batches *)
+        if ((0 <? n) && (st_batch s + n <=? length starts))%nat then
+          let b := map start_info (firstn n (skipn (st_batch s) starts)) in
+          Some (mkState (add_many b (st_tbl s)) (hosts_after b (st_tbl s) (st_hosts s)) [] []
+                        (st_log s) (st_colog s) Starting (st_batch s + n))
+        else None
     | _, _ => None
     end.
 
-  Definition init : state := mkState [] [] [] [] [] [] Down.
+  Definition init : state := mkState [] [] [] [] [] [] Down 0.
 
   Definition is_crash (l : label) : bool := match l with LCrash => true | _ => false end.
 
@@ -347,7 +356,7 @@ Section Engine.
 
   (* a whole (re)run of the command on the database [t]: start-up, then crawl *)
   Definition run_on (fuel : nat) (t : table) (hs : list N) (lg : list logent) : option state :=
-    match boot (mkState t hs [] [] lg [] Down) with
+    match boot (mkState t hs [] [] lg [] Down 0) with
     | Some s => seq_run fuel s
     | None => None
     end.
